@@ -7,6 +7,7 @@
 2. TLC-generated behaviours and seeded random histories run on a real track tree with index-coded
    sounds; every callback records track states, the source frame heard from each sound and counts.
 3. TLC validates every recorded session against P_C12 (T_C12.tla)."""
+import json
 import os
 import random
 
@@ -17,10 +18,10 @@ MANIFEST = dict(
     level="model_checking", design_ref="DESIGN.md 8 (C12), 7 (Track)",
     technique="TLA+ model of the track tree (TLC, all operation histories up to a bound) against a property monitor; TLC behaviours replayed on a real track tree with index-coded sounds; TLC trace validation against P_C12",
     text="TLC explores every history of up to 3-4 operations (pause/resume/resume_at with delayed, clock and missing-clock start times and fades of 0 or 2 chunks on parent or child track, dropping either handle, stopping either sound, persistence on/off) interleaved with callbacks, against the monitor: subtree silent while an ancestor is paused, sounds continue from exactly the frozen frame (index continuity), removal not before and at the callback after the track becomes removable, never while a descendant handle lives, state() one of five values and never panicking. The same histories are executed on real tracks and validated by TLC.",
-    note="Scene fixed to a chain main <- A <- B with one sound per track. Re-pausing a track that already reports a paused state is outside the generated domain (it un-freezes the subtree during the silent fade; the statement does not cover it). A resume at a start time may begin its fade-in one callback after the start time (the chunk in which the start time arrives is processed at zero gain): accepted as 'within one callback'.")
+    note="Scene: a chain main <- A <- B [<- C] (depth 2 or 3) with one sound per track. Re-pausing a track that already reports a paused state is outside the generated domain (it un-freezes the subtree during the silent fade; the statement does not cover it). A resume at a start time may begin its fade-in one callback after the start time (the chunk in which the start time arrives is processed at zero gain): accepted as 'within one callback'.")
 
 
-def cfg(durs, waits, maxops, maxcb, pa, pb, extra):
+def cfg(durs, waits, maxops, maxcb, pa, pb, extra, depth=2, pc=False):
     return """SPECIFICATION %s
 CONSTANTS
   Durs = {%s}
@@ -29,11 +30,13 @@ CONSTANTS
   MaxCb = %d
   PersistA = %s
   PersistB = %s
+  PersistC = %s
   NF = 4
+  Depth = %d
 %s
 CHECK_DEADLOCK FALSE
 """ % ("GSpec" if "D =" in extra else "Spec", ", ".join(map(str, durs)), ", ".join(map(str, waits)), maxops, maxcb,
-       "TRUE" if pa else "FALSE", "TRUE" if pb else "FALSE", extra)
+       "TRUE" if pa else "FALSE", "TRUE" if pb else "FALSE", "TRUE" if pc else "FALSE", depth, extra)
 
 
 def write_cfg(name, text):
@@ -47,16 +50,20 @@ INV = "VIEW View\nINVARIANTS PropertyHolds StatesValid ChildNeverOutlivesParent 
 
 
 def model_check(res, tier):
-    runs = [("plain", [0, 2], [0, 2], 3, 5, False, False), ("persist", [0], [0], 3, 6, True, True)]
+    runs = [("plain", [0, 2], [0, 2], 3, 6, False, False, 2), ("persist", [0], [0], 3, 6, True, True, 2),
+            ("deep", [0, 2], [0], 3, 5, False, False, 3), ("deep-persist", [0], [0], 3, 6, False, True, 3)]
     if tier == "thorough":
-        runs = [("plain", [0, 2], [0, 2], 4, 7, False, False), ("persistA", [0, 2], [0], 4, 8, True, False),
-                ("persistB", [0, 2], [0], 4, 8, False, True)]
-    for name, durs, waits, mo, mcb, pa, pb in runs:
-        st = tlc_check("MC_Track.tla", write_cfg("Track_%s.cfg" % name, cfg(durs, waits, mo, mcb, pa, pb, INV)),
+        runs = [("plain", [0, 2], [0, 2], 4, 7, False, False, 2), ("persistA", [0, 2], [0], 4, 8, True, False, 2),
+                ("persistB", [0, 2], [0], 4, 8, False, True, 2), ("deep", [0, 2], [0, 2], 4, 6, False, False, 3),
+                ("deep-persist", [0, 2], [0], 4, 7, False, True, 3)]
+    for name, durs, waits, mo, mcb, pa, pb, depth in runs:
+        st = tlc_check("MC_Track.tla", write_cfg("Track_%s.cfg" % name, cfg(durs, waits, mo, mcb, pa, pb, INV, depth=depth, pc=(name == "deep-persist"))),
                        workers=8, timeout=6000, tag="c12mc")
         if st["violated"]:
             res.drift.append({"model": "Track/" + name, "violated": st["violated"]})
         res.add_mc("Track/%s durs=%s waits=%s ops<=%d cb<=%d" % (name, durs, waits, mo, mcb), st)
+    tlc_check("MC_Track.tla", write_cfg("Track_W_Deep.cfg", cfg([0], [0], 2, 5, False, False, "VIEW View\nINVARIANT W_Deep", depth=3)),
+              workers=4, timeout=900, expect_violation="W_Deep", tag="c12w")
     for w in ("W_Removed", "W_FrozenChild"):
         tlc_check("MC_Track.tla", write_cfg("Track_%s.cfg" % w, cfg([0], [0], 2, 5, False, False, "VIEW View\nINVARIANT " + w)),
                   workers=4, timeout=900, expect_violation=w, tag="c12w")
@@ -65,23 +72,26 @@ def model_check(res, tier):
 def generate(tier, rng):
     scen = []
     num = 150 if tier == "quick" else 4000
-    for pa, pb in ((False, False), (True, False), (False, True)):
-        base = cfg([0, 2], [0, 1, 2], 6, 14, pa, pb, "  D = 16\nCONSTRAINT Bound\nINVARIANT Dump\n")
-        bs = tlc_generate("Gen_Track.tla", write_cfg("Gen_Track_%s%s.cfg" % (pa, pb), base), "sim",
-                          num=num if not (pa or pb) else num // 3, depth=17, timeout=1500, tag="c12g")
-        for b in bs:
-            scen.append({"persistA": pa, "persistB": pb, "src": "tlc-sim", "steps": b})
+    for pa, pb, pc, depth in ((False, False, False, 2), (True, False, False, 2), (False, True, False, 2),
+                              (False, False, False, 3), (False, False, True, 3), (True, False, False, 3)):
+        base = cfg([0, 2], [0, 1, 2], 6, 14, pa, pb, "  D = 16\nCONSTRAINT Bound\nINVARIANT Dump\n", depth=depth, pc=pc)
+        bs = tlc_generate("Gen_Track.tla", write_cfg("Gen_Track_%s%s%s%d.cfg" % (pa, pb, pc, depth), base), "sim",
+                          num=num if not (pa or pb or pc) else num // 3, depth=17, timeout=1500, tag="c12g")
+        for b in bs[:num * 2]:
+            scen.append({"persistA": pa, "persistB": pb, "persistC": pc, "depth": depth, "src": "tlc-sim", "steps": b})
     # seeded random with the same domain restrictions (pause only when running, resume only when paused)
     for k in range(60 if tier == "quick" else 2000):
         steps = []
-        paused = {"A": False, "B": False}
+        depth = rng.choice([2, 3])
+        tracks = ["A", "B"] + (["C"] if depth == 3 else [])
+        paused = {t: False for t in tracks}
         dropped = set()
         for _ in range(rng.randint(8, 30)):
             r = rng.random()
             if r < 0.5:
                 steps.append({"act": "Callback"})
             elif r < 0.85:
-                t = rng.choice(["A", "B"])
+                t = rng.choice(tracks)
                 if t in dropped:
                     continue
                 d = rng.choice([0, 2, 3])
@@ -99,14 +109,15 @@ def generate(tier, rng):
                 # a command takes effect at the next callback: keep commands to one track one window apart
                 steps.append({"act": "Callback"})
             elif r < 0.93:
-                t = rng.choice(["A", "B"])
+                t = rng.choice(tracks)
                 if t not in dropped:
                     dropped.add(t)
                     steps.append({"act": "Drop", "t": t})
             else:
-                steps.append({"act": "Stop", "s": rng.choice(["SA", "SB"])})
+                steps.append({"act": "Stop", "s": rng.choice(["S" + t for t in tracks])})
         steps += [{"act": "Callback"}] * 4
-        scen.append({"persistA": rng.random() < 0.3, "persistB": rng.random() < 0.3, "src": "random", "steps": steps})
+        scen.append({"persistA": rng.random() < 0.3, "persistB": rng.random() < 0.3, "persistC": depth == 3 and rng.random() < 0.3,
+                     "depth": depth, "src": "random", "steps": steps})
     return scen
 
 
@@ -123,7 +134,14 @@ def drift_of(scen, sessions):
             me, re_ = step["ev"], evs[j]
             if me["a"] != "cb":
                 continue
-            keys = ["st", "first", "zero", "ntop", "nA", "sst"]
+            keys = ["st", "first", "zero", "ntop", "nA", "nB", "sst"]
+            me, re_ = json.loads(json.dumps(me)), json.loads(json.dumps(re_))
+            if re_.get("first", {}).get("SA") in (-2, -4):
+                # while SA is faded the shared channel cannot show SC: the driver makes no claim about it
+                for d in (me, re_):
+                    d["first"]["SC"] = d["zero"]["SC"] = None
+                    if re_["first"]["SA"] == -4:
+                        d["first"]["SA"] = d["zero"]["SA"] = None
             if any(me[x] != re_.get(x) for x in keys):
                 out.append({"session": k + 1, "step": j, "model": {x: me[x] for x in keys}, "real": {x: re_.get(x) for x in keys}})
                 break
@@ -145,7 +163,7 @@ def run(tier):
     res.evaluations = len(scen)
     for sc in scen:
         if any(s["act"] != "Callback" for s in sc["steps"]):
-            res.distinct.add(behaviour_hash([sc["persistA"], sc["persistB"], [(s["act"], s.get("t"), s.get("c"), s.get("d"), s.get("wk"), s.get("wt"), s.get("s")) for s in sc["steps"]]]))
+            res.distinct.add(behaviour_hash([sc["persistA"], sc["persistB"], sc.get("persistC"), sc.get("depth"), [(s["act"], s.get("t"), s.get("c"), s.get("d"), s.get("wk"), s.get("wt"), s.get("s")) for s in sc["steps"]]]))
     res.samples = [{"persistA": s["persistA"], "persistB": s["persistB"], "src": s["src"],
                     "steps": [[x["act"], x.get("t") or x.get("s"), x.get("c"), x.get("d"), x.get("wk"), x.get("wt")] for x in s["steps"]][:24]}
                    for s in scen[:1] + scen[-1:]]
